@@ -118,11 +118,23 @@ Definition item_binds_x (i : item) : bool :=
 Definition params_bind_x (ps : list (ident * bool * ty)) : bool :=
   existsb (fun p => N.eqb (fst (fst p)) x) ps.
 
+(* does a function of the run of function items at the head of l have the name x ? *)
+Fixpoint run_binds_x (l : list item) : bool :=
+  match l with
+  | IFunc fd :: r => N.eqb (fd_name fd) x || run_binds_x r
+  | _ => false
+  end.
+
+(* adjacent function items see each other: a function item is outside the scope of the renamed
+   binder as soon as it or a LATER function of its run is named x (an earlier one has already
+   switched `on` off) *)
 Definition sub_items_with (f : bool -> item -> item) :=
   fix go (on : bool) (l : list item) {struct l} : list item :=
     match l with
     | [] => []
-    | i :: r => f on i :: go (on && negb (item_binds_x i)) r
+    | i :: r =>
+      f (match i with IFunc _ => on && negb (run_binds_x r) | _ => on end) i
+        :: go (on && negb (item_binds_x i)) r
     end.
 
 Fixpoint sub_expr (on : bool) (t : expr) {struct t} : expr :=
@@ -180,7 +192,9 @@ Definition subst_var (rest : list item) : list item := sub_items true rest.
 Lemma sub_items_nil : forall on, sub_items on [] = [].
 Proof. reflexivity. Qed.
 Lemma sub_items_cons : forall on i r,
-  sub_items on (i :: r) = sub_item on i :: sub_items (on && negb (item_binds_x i)) r.
+  sub_items on (i :: r) =
+  sub_item (match i with IFunc _ => on && negb (run_binds_x r) | _ => on end) i
+    :: sub_items (on && negb (item_binds_x i)) r.
 Proof. reflexivity. Qed.
 
 Lemma fd_name_sub : forall on fd, fd_name (sub_fdef on fd) = fd_name fd.
@@ -205,7 +219,11 @@ Proof. reflexivity. Qed.
 
 Lemma sub_items_false_id : forall l,
   Forall (fun i => sub_item false i = i) l -> sub_items false l = l.
-Proof. induction 1; [reflexivity|]. rewrite sub_items_cons. cbn [andb]. congruence. Qed.
+Proof.
+  induction 1 as [|i l Hi Hl IH]; [reflexivity|]. rewrite sub_items_cons. cbn [andb].
+  replace (match i with IFunc _ => false | _ => false end) with false by (destruct i; reflexivity).
+  congruence.
+Qed.
 
 Lemma map_id_Forall : forall A (f : A -> A) l, Forall (fun a => f a = a) l -> map f l = l.
 Proof. induction 1; simpl; congruence. Qed.
@@ -327,6 +345,59 @@ Proof.
     destruct on, (N.eqb b x), (params_bind_x ps); reflexivity.
 Qed.
 
+(* ---- runs of function items ----------------------------------------------------------- *)
+
+Definition fds_bind_x (fds : list fdef) : bool := existsb (fun f => N.eqb (fd_name f) x) fds.
+
+Lemma run_binds_x_funcs : forall l, run_binds_x l = fds_bind_x (run_funcs l).
+Proof. induction l as [|[] l IH]; simpl; auto. now rewrite IH. Qed.
+
+Lemma run_funcs_sub : forall l on,
+  run_funcs (sub_items on l) = map (sub_fdef (on && negb (run_binds_x l))) (run_funcs l).
+Proof.
+  induction l as [|i l IH]; intros on; [reflexivity|].
+  rewrite sub_items_cons. destruct i; try reflexivity.
+  cbn [sub_item run_funcs map run_binds_x item_binds_x]. rewrite IH. f_equal.
+  - f_equal. destruct on, (N.eqb (fd_name fd) x), (run_binds_x l); reflexivity.
+  - f_equal. f_equal. destruct on, (N.eqb (fd_name fd) x), (run_binds_x l); reflexivity.
+Qed.
+
+Lemma run_rest_sub : forall l on,
+  run_rest (sub_items on l) = sub_items (on && negb (run_binds_x l)) (run_rest l).
+Proof.
+  induction l as [|i l IH]; intros on; [reflexivity|].
+  destruct i; try (cbn [run_binds_x negb]; rewrite andb_true_r; reflexivity).
+  rewrite sub_items_cons. cbn [sub_item run_rest run_binds_x item_binds_x]. rewrite IH.
+  f_equal. destruct on, (N.eqb (fd_name fd) x), (run_binds_x l); reflexivity.
+Qed.
+
+Lemma cfg_func_env : forall fds o s on E1 E2 c, cfg s on E1 E2 ->
+  (s = true -> all_list (fun f => fd_name f <> y) fds) ->
+  cfg s (on && negb (fds_bind_x fds)) (func_env fds c E1) (func_env (map (sub_fdef o) fds) c E2).
+Proof.
+  induction fds as [|fd t IH]; intros o s on E1 E2 c C Hy.
+  - simpl. rewrite andb_true_r. exact C.
+  - cbn [map func_env]. rewrite fd_name_sub.
+    assert (C1 := cfg_bind _ _ _ _ (fd_name fd) c C (fun h => proj1 (Hy h))).
+    assert (C2 := IH o _ _ _ _ (S c) C1 (fun h => proj2 (Hy h))).
+    replace (on && negb (fds_bind_x (fd :: t)))
+      with (on && negb (N.eqb (fd_name fd) x) && negb (fds_bind_x t)); [exact C2|].
+    simpl. destruct on, (N.eqb (fd_name fd) x), (fds_bind_x t); reflexivity.
+Qed.
+
+Lemma nin_run : forall l, all_list nin_item l ->
+  all_list nin_fdef (run_funcs l) /\ all_list nin_item (run_rest l).
+Proof.
+  induction l as [|i l IH]; intros H; [simpl; auto|].
+  destruct i; try (simpl; auto; fail). destruct H as [H1 H2]. destruct (IH H2). simpl. auto.
+Qed.
+
+Lemma all_list_names : forall fds, all_list nin_fdef fds -> all_list (fun f => fd_name f <> y) fds.
+Proof.
+  induction fds as [|f t IH]; simpl; auto. intros [H1 H2]. split; auto.
+  exact (proj1 (nin_fdef_eq _ H1)).
+Qed.
+
 (* ---- related stores ------------------------------------------------------------------ *)
 
 Inductive cell_rel : cellval -> cellval -> Prop :=
@@ -417,14 +488,27 @@ Proof. intros s1 s2 cs (H1 & H2 & H3 & H4). repeat split; simpl; auto; congruenc
 Lemma res_rel_same : forall r s1 s2, st_rel s1 s2 -> res_rel (r, s1) (r, s2).
 Proof. intros; split; auto. Qed.
 
+Lemma ref_is_nil_rel : forall v1 v2, cell_rel v1 v2 -> ref_is_nil v1 = ref_is_nil v2.
+Proof. intros v1 v2 R. inversion R; reflexivity. Qed.
+
+Lemma nil_cmp_rel : forall op s1 s2 c1 c2, st_rel s1 s2 ->
+  nil_cmp op (get_cell s1 c1) (get_cell s1 c2) = nil_cmp op (get_cell s2 c1) (get_cell s2 c2).
+Proof.
+  intros op s1 s2 c1 c2 H. unfold nil_cmp.
+  destruct (get_cell_rel _ _ c1 H) as [[-> ->]|[v1 [v2 [-> [-> R1]]]]]; auto.
+  destruct (get_cell_rel _ _ c2 H) as [[-> ->]|[w1 [w2 [-> [-> R2]]]]]; auto.
+  rewrite (ref_is_nil_rel _ _ R1), (ref_is_nil_rel _ _ R2). reflexivity.
+Qed.
+
 Lemma binop_result_rel : forall op c1 c2 s1 s2, st_rel s1 s2 ->
   res_rel (binop_result op c1 c2 s1) (binop_result op c1 c2 s2).
 Proof.
   intros op c1 c2 s1 s2 H. unfold binop_result.
-  rewrite !(get_int_rel _ _ _ H), !(get_bool_rel _ _ _ H).
+  rewrite !(get_int_rel _ _ _ H), !(get_bool_rel _ _ _ H), (nil_cmp_rel op _ _ c1 c2 H).
   destruct (get_int s2 c1), (get_int s2 c2);
     try destruct (int_binop op z z0);
     destruct op; try destruct (get_bool s2 c1); try destruct (get_bool s2 c2);
+    try match goal with |- context[nil_cmp ?o ?a ?b] => destruct (nil_cmp o a b) end;
     auto using res_rel_same, fresh_rel, cell_rel_refl.
 Qed.
 
@@ -453,6 +537,21 @@ Proof.
   destruct (nth_error l fld); auto using res_rel_same.
 Qed.
 
+
+Lemma run_state_rel : forall s on' fds E1 E2 s1 s2,
+  (s = true -> all_list nin_fdef fds) ->
+  cfg s on' (run_env fds E1 s1) (run_env (map (sub_fdef on') fds) E2 s2) ->
+  st_rel s1 s2 ->
+  st_rel (run_state fds E1 s1) (run_state (map (sub_fdef on') fds) E2 s2).
+Proof.
+  intros s on' fds E1 E2 s1 s2 Hn C (H1 & H2 & H3 & H4). unfold run_state.
+  repeat split; simpl; auto. apply Forall2_app; auto.
+  rewrite map_map.
+  generalize dependent (run_env fds E1 s1). generalize (run_env (map (sub_fdef on') fds) E2 s2).
+  intros e2 e1 C. clear -Hn C. induction fds as [|f t IH]; simpl; constructor.
+  - eapply cr_fun; eauto. intro h. exact (proj1 (Hn h)).
+  - apply IH. intro h. exact (proj2 (Hn h)).
+Qed.
 
 (* ---- the simulation ------------------------------------------------------------------ *)
 
@@ -610,14 +709,25 @@ Proof.
       * destruct last; auto with rel.
       * eapply IHi; eauto using cfg_bind.
       * eapply IHi; eauto using cfg_bind.
-      * destruct (alloc_rel st1 st2 (CInt 0) (CInt 0) Hs (cr_int 0)) as [Ea Ra].
-        destruct (alloc st1 (CInt 0)) as [c1 sa], (alloc st2 (CInt 0)) as [c2 sb].
-        simpl in Ea, Ra. subst c2. rewrite fd_name_sub.
-        assert (Hn : s = true -> fd_name fd <> y)
-          by (intro h; match goal with H : s = true -> nin_fdef fd |- _ =>
-                         exact (proj1 (nin_fdef_eq _ (H h))) end).
-        eapply IHi; eauto using cfg_bind.
-        apply set_cell_rel; auto. eapply cr_fun; eauto using cfg_bind.
+      * (* a run of function items *)
+        set (on' := on && negb (run_binds_x (IFunc fd :: t))).
+        assert (Hnr : s = true -> all_list nin_fdef (fd :: run_funcs t) /\ all_list nin_item (run_rest t)).
+        { intro h. destruct (nin_run t (Hok1 h)). simpl. auto. }
+        split_ok.
+        assert (E0 : on && negb (run_binds_x t) && negb (N.eqb (fd_name fd) x) = on')
+          by (unfold on'; simpl; destruct on, (N.eqb (fd_name fd) x), (run_binds_x t); reflexivity).
+        assert (E1' : on && negb (N.eqb (fd_name fd) x) && negb (run_binds_x t) = on')
+          by (unfold on'; simpl; destruct on, (N.eqb (fd_name fd) x), (run_binds_x t); reflexivity).
+        rewrite run_funcs_sub, run_rest_sub, map_length, E0, E1'.
+        change (sub_fdef on' fd :: map (sub_fdef on') (run_funcs t))
+          with (map (sub_fdef on') (fd :: run_funcs t)).
+        rewrite <- (st_rel_length _ _ Hs).
+        assert (C' : cfg s on' (run_env (fd :: run_funcs t) E1 st1)
+                           (run_env (map (sub_fdef on') (fd :: run_funcs t)) E2 st2)).
+        { unfold run_env. rewrite <- (st_rel_length _ _ Hs).
+          unfold on'. rewrite run_binds_x_funcs. change (run_funcs (IFunc fd :: t)) with (fd :: run_funcs t).
+          apply cfg_func_env; auto. intro h. apply all_list_names. auto. }
+        eapply IHi; eauto. eapply run_state_rel; eauto.
       * cbn [negb]. rewrite andb_true_r. eapply IHi; eauto.
     + intros s on E1 E2 st1 st2 ex cs call C Hok Hokc Hs.
       destruct cs as [|[ex' body] t]; cbn [map sub_catch all_list snd] in *; split_ok;
@@ -670,6 +780,17 @@ Proof.
 Qed.
 
 (* ... anywhere inside a block *)
+Lemma run_app_nr : forall pre l, run_funcs l = [] ->
+  run_funcs (pre ++ l) = run_funcs pre /\ run_rest (pre ++ l) = run_rest pre ++ l.
+Proof.
+  induction pre as [|i pre IH]; intros l H; simpl.
+  - split; [exact H|apply run_rest_id; exact H].
+  - destruct i; auto. destruct (IH l H) as [-> ->]. auto.
+Qed.
+
+Lemma run_rest_length : forall l, length (run_rest l) <= length l.
+Proof. induction l as [|[] l IH]; simpl; auto. Qed.
+
 Theorem alpha_fresh_binder_in_block : forall pre k e st a rest last,
   all_list nin_item rest ->
   res_rel (eval_items genv k e st (pre ++ ILet x a :: rest) last)
@@ -677,14 +798,28 @@ Theorem alpha_fresh_binder_in_block : forall pre k e st a rest last,
   res_rel (eval_items genv k e st (pre ++ IVar x a :: rest) last)
           (eval_items genv k e st (pre ++ IVar y a :: subst_var rest) last).
 Proof.
-  induction pre as [|i pre IH]; intros k e st a rest last Hn.
-  - apply alpha_fresh_binder; auto.
-  - destruct k; [rewrite !eval_items_O; auto using res_rel_same, st_rel_refl|].
+  assert (G : forall n pre, length pre <= n -> forall k e st a rest last,
+    all_list nin_item rest ->
+    res_rel (eval_items genv k e st (pre ++ ILet x a :: rest) last)
+            (eval_items genv k e st (pre ++ ILet y a :: subst_var rest) last) /\
+    res_rel (eval_items genv k e st (pre ++ IVar x a :: rest) last)
+            (eval_items genv k e st (pre ++ IVar y a :: subst_var rest) last)).
+  { induction n as [|n IH]; intros pre Hl k e st a rest last Hn;
+      (destruct pre as [|i pre]; [apply alpha_fresh_binder; auto|]); simpl in Hl; [lia|].
+    destruct k; [rewrite !eval_items_O; auto using res_rel_same, st_rel_refl|].
     simpl app. destruct i as [b a0|b a0|fd|a0]; autorewrite with evaleq.
     + destruct (eval genv k e st a0) as [[c| | |] st1]; auto using res_rel_same, st_rel_refl.
+      apply IH; auto; lia.
     + destruct (eval genv k e st a0) as [[c| | |] st1]; auto using res_rel_same, st_rel_refl.
-    + destruct (alloc st (CInt 0)) as [c st1]. apply IH; auto.
+      apply IH; auto; lia.
+    + destruct (run_app_nr pre (ILet x a :: rest) eq_refl) as [-> ->].
+      destruct (run_app_nr pre (ILet y a :: subst_var rest) eq_refl) as [-> ->].
+      destruct (run_app_nr pre (IVar x a :: rest) eq_refl) as [-> ->].
+      destruct (run_app_nr pre (IVar y a :: subst_var rest) eq_refl) as [-> ->].
+      apply IH; auto. pose proof (run_rest_length pre). lia.
     + destruct (eval genv k e st a0) as [[c| | |] st1]; auto using res_rel_same, st_rel_refl.
+      apply IH; auto; lia. }
+  intros pre. apply (G (length pre)); auto.
 Qed.
 
 (* ... and inside an expression block *)
